@@ -368,11 +368,32 @@ class Run:
             self.violation("proof-gate", "forbidden vernacular in the development: %s" % ", ".join(r["gate"][:5]),
                            {"kind": "proof", "theorem": "gate", "detail": r["gate"]}, found_input=False)
         if r["failed"]:
-            self.broken_theorems = r["failed"]
+            self.broken_theorems = getattr(self, "broken_theorems", []) + r["failed"]
             self.proof_log = r["log"]
         else:
-            self.broken_theorems = []
+            self.broken_theorems = getattr(self, "broken_theorems", [])
+            if self.tier == "thorough":
+                self.coqchk(propfile)
         return r
+
+    def coqchk(self, propfile):
+        """thorough tier: re-check the compiled property library (and everything it depends on) with the
+        independent checker coqchk, and record the axioms it reports (-o)."""
+        rel = os.path.relpath(os.path.join(ROOT, propfile), COQ)
+        mod = "CV." + rel[:-2].replace("/", ".")
+        t0 = time.time()
+        rc, o, e = sh(["coqchk", "-silent", "-o", "-Q", ".", "CV", mod], cwd=COQ, timeout=3000)
+        txt = o + e
+        ck = {"module": mod, "rc": rc, "wall_s": round(time.time() - t0, 1)}
+        m = re.search(r"\* Axioms:(.*?)(?:\n\s*\n\* |\Z)", txt, flags=re.S)
+        if m:
+            ck["axioms"] = [a.strip() for a in m.group(1).strip().split("\n") if a.strip()][:60]
+        self.cov.setdefault("coqchk", []).append(ck)
+        if rc == 124:
+            self.notes.append("coqchk timed out on %s (not a verdict)" % mod)
+        elif rc != 0:
+            self.broken_theorems = getattr(self, "broken_theorems", []) + ["coqchk:" + mod]
+            self.proof_log = txt[-3000:]
 
     def count(self, case_key, nontrivial=True):
         self.cov["evaluations"] += 1
